@@ -108,6 +108,13 @@ func (g GenAsset) Write(root, bundled string) error {
 	dir := filepath.Join(root, g.Name)
 	var asXML []string
 	var totalMS uint64
+	var videoNominalNum, videoNominalDen uint64
+	for _, tr := range g.Tracks {
+		if tr.Kind == "video" {
+			videoNominalNum, videoNominalDen = uint64(tr.SegSamples[0])*uint64(tr.SampleDur), uint64(tr.Timescale)
+			break
+		}
+	}
 	for ti := range g.Tracks {
 		tr := &g.Tracks[ti]
 		if tr.StartNumber == 0 {
@@ -192,6 +199,10 @@ func (g GenAsset) Write(root, bundled string) error {
 				en = fmt.Sprintf(` endNumber="%d"`, tr.StartNumber+len(tr.SegSamples)-1)
 			}
 			nominal := uint64(tr.SegSamples[0]) * uint64(tr.SampleDur)
+			if tr.Kind == "audio" && videoNominalNum > 0 {
+				// like real packagers: the audio template carries the video's nominal segment duration (segment alignment)
+				nominal = videoNominalNum * uint64(tr.Timescale) / videoNominalDen
+			}
 			st = fmt.Sprintf(`<SegmentTemplate media="$RepresentationID$/$Number$.m4s" initialization="$RepresentationID$/init.mp4" timescale="%d" duration="%d" startNumber="%d"%s/>`, tr.Timescale, nominal, tr.StartNumber, en)
 		}
 		lang := ""
